@@ -94,6 +94,7 @@ def dump_facts(vinegar, consts, version):
         raise Inexpressible("dump: the marker path is not restricted to `typ is StopIteration`")
     # --- shape of a record, names left out
     ignored = set()
+    skips_callables = None
     ver_attr = ver_denied = None
     for cls in sorted(set(v for v in vars(builtins).values() if isinstance(v, type) and issubclass(v, BaseException)),
                       key=lambda c: c.__name__):
@@ -118,7 +119,7 @@ def dump_facts(vinegar, consts, version):
         sent = [p[0] for p in rec[2]]
         if len(set(sent)) != len(sent):
             raise Inexpressible("dump: an attribute is sent twice")
-        public_ok = []
+        public_ok, callables = [], set()
         for n in dir(val):
             if n == "args":
                 continue
@@ -133,9 +134,16 @@ def dump_facts(vinegar, consts, version):
                     raise Inexpressible("dump: the private name %r is sent" % n)
             else:
                 public_ok.append(n)
+                if callable(getattr(val, n)):
+                    callables.add(n)
         if "args" in sent:
             raise Inexpressible("dump: `args` is also sent as an attribute")
-        ignored |= set(n for n in public_ok if n not in sent)
+        sent_callables = set(n for n in callables if n in sent)
+        if skips_callables is None:
+            skips_callables = not sent_callables
+        if sent_callables and skips_callables:
+            raise Inexpressible("dump: some methods are sent as attributes and others are not: %s" % sorted(sent_callables))
+        ignored |= set(n for n in public_ok if n not in sent and not (skips_callables and n in callables))
         for n in ("pub", "a_b", "Z9", "x_"):
             if n in public_ok and n not in sent:
                 raise Inexpressible("dump: the public name %r is left out" % n)
@@ -202,7 +210,13 @@ def dump_facts(vinegar, consts, version):
     else:
         # this interpreter formats everything: the guard cannot be observed; it is then irrelevant as well
         guarded, unavailable = True, ""
-    return dict(exists=exists, noargs=exists and not with_args, ignored=sorted(ignored), prefix="_", args_name="args",
+    # a public attribute HOLDING a callable (not a method of the class) follows the same rule
+    pv = ValueError("probe")
+    pv.hook = len
+    hook_sent = "hook" in [p[0] for p in dump(ValueError, pv, None, False, False)[2]]
+    if hook_sent == bool(skips_callables):
+        raise Inexpressible("dump: methods and attributes holding a callable are treated differently")
+    return dict(skips_callables=bool(skips_callables), exists=exists, noargs=exists and not with_args, ignored=sorted(ignored), prefix="_", args_name="args",
                 tb_denied=tb_denied, ver_denied=ver_denied, ver_attr=ver_attr, tb_guarded=guarded, tb_unavailable=unavailable)
 
 
@@ -647,7 +661,10 @@ def gen_vinegar():
           "/-- does a bare `StopIteration` travel as the marker, and does a `StopIteration` with arguments go the long way -/",
           "def stopFastPathExists : Bool := %s" % lean_bool(d["exists"]),
           "def stopFastPathRequiresNoArgs : Bool := %s" % lean_bool(d["noargs"]),
-          "/-- public names of `dir(val)` that are left out (observed over all built-in exception classes) -/",
+          "/-- an attribute whose value is callable (a method, above all) is not sent: it is not data, and sent as its repr it would",
+          "shadow the method on the rebuilt exception and disclose an address -/",
+          "def skipsCallables : Bool := %s" % lean_bool(d["skips_callables"]),
+          "/-- public, non-callable names of `dir(val)` that are left out all the same (observed over all built-in classes) -/",
           "def ignoredAttrsText : List String := " + lean_list([lean_str(s) for s in d["ignored"]]),
           "def ignoredAttrs : List (List Nat) := " + lean_list([cps(s) for s in d["ignored"]], 2),
           "def privatePrefixText : String := " + lean_str(d["prefix"]),
